@@ -39,6 +39,13 @@ def run_core(cases, shards=8, fuel=None, timeout_ms=10000):
     Each disagreement: dict(layer, case index, text index or None, go=..., model=...)."""
     go_cases = [{"op": "e2e", "src_hex": vh.hexs(c["src"]), "texts_hex": [vh.hexs(t) for t in c["texts"]]} for c in cases]
     gres = vh.run_cases(go_cases, shards=shards, timeout_ms=timeout_ms)
+    # cases on which the implementation hung: compile only, to obtain the AST for the model
+    hung = [i for i, g in enumerate(gres) if g.get("hang") or g.get("oom") or g.get("fatal") or g.get("missing")]
+    if hung:
+        again = vh.run_cases([{"op": "e2e", "src_hex": vh.hexs(cases[i]["src"])} for i in hung], timeout_ms=timeout_ms)
+        for i, g2 in zip(hung, again):
+            if "ast" in g2:
+                gres[i]["ast"] = g2["ast"]
     lines = []
     for i, (c, g) in enumerate(zip(cases, gres)):
         if "ast" not in g or "nil" in g["ast"] or "unknown-" in g["ast"]:
@@ -56,11 +63,18 @@ def run_core(cases, shards=8, fuel=None, timeout_ms=10000):
     if "__driver_error__" in mres:
         dis.append({"layer": "DRIVER", "case": None, "detail": mres["__driver_error__"]})
     for i, (c, g) in enumerate(zip(cases, gres)):
+        mk = "m%d" % i
         if g.get("hang") or g.get("oom") or g.get("fatal") or g.get("missing"):
             stats["go_hang"] += 1
-            dis.append({"layer": "IMPL-HANG", "case": i, "go": {k: g[k] for k in g if k in ("hang", "oom", "fatal", "missing", "stderr")}})
+            # the implementation did not come back within the budget: a disagreement only if the
+            # model finishes every text within its step budget (otherwise both are merely expensive)
+            mtxt = mres.get(mk, "")
+            if "(fuel)" in mtxt:
+                stats["both_expensive"] = stats.get("both_expensive", 0) + 1
+            else:
+                dis.append({"layer": "IMPL-HANG", "case": i, "model": mtxt[:300],
+                            "go": {k: g[k] for k in g if k in ("hang", "oom", "fatal", "missing", "stderr")}})
             continue
-        mk = "m%d" % i
         if "ast" not in g:
             if "panic" in g:
                 stats["go_panic"] += 1
